@@ -15,7 +15,7 @@ try:
     print('baseline suite on patched tree:', 'pass' if not r.stdout.strip() else 'FAIL\n' + r.stdout[-800:])
     here = os.path.dirname(os.path.dirname(os.path.abspath(__file__)))
     # work in a private copy of the framework so that builds in /verif itself are not disturbed (gen/GoFacts.v, harness/go.mod)
-    priv = '/tmp/verif-try'
+    priv = '/tmp/verif-try-%d' % os.getpid()
     sh('mkdir -p %s && rsync -a --delete --exclude .git --exclude work/out --exclude work/dbg --exclude work/dbg15 --exclude work/replays --exclude work/run %s/ %s/' % (priv, here, priv))
     here = priv
     for p in props:
@@ -27,4 +27,4 @@ try:
 finally:
     sh('git -C /repo worktree remove --force %s' % wt)
     # restore the harness module to /repo
-    sh('rm -rf /tmp/verif-try') if os.environ.get('TRY_KEEP') != '1' else None
+    sh('rm -rf /tmp/verif-try-%d' % os.getpid()) if os.environ.get('TRY_KEEP') != '1' else None
